@@ -21,6 +21,7 @@ package PKGNAME
 
 import (
 	"fmt"
+	"runtime"
 	"sort"
 	"strings"
 	"sync"
@@ -43,6 +44,8 @@ const (
 	vfC04Advance
 	vfC04Release
 	vfC04Checkpoint
+	vfC04Publish
+	vfC04PubPark
 )
 
 type vfC04Step struct {
@@ -59,6 +62,9 @@ type vfC04Step struct {
 	Idx      int
 	AdvMs    int
 	NoSettle bool
+	Follow   int  // PubPark: operation started while the delivery is parked: 0 unsubCmd, 1 Client.Unsubscribe, 2 Node.Unsubscribe, 3 transport close, 4 Disconnect
+	Resub    bool // PubPark: also start a subscribe command before the delivery is released
+	UseDelta bool // Publish / PubPark: publish with the delta option
 	Quiet    bool // close ops: freeze the connection (see "quiet close" in vfC04Run)
 }
 
@@ -69,6 +75,7 @@ type vfC04Case struct {
 	Protos []ProtocolType
 	Init   [][]bool // connect-time server-side subscriptions
 	ChPos  []bool   // channel uses positioning (history read during subscribe)
+	ChDelta []bool  // channel allows fossil delta; client subscribe commands then negotiate it
 	ChPres []bool   // channel uses presence (AddPresence during subscribe, RemovePresence during unsubscribe)
 	Steps  []vfC04Step
 }
@@ -118,6 +125,11 @@ func (s vfC04Step) String() string {
 		return fmt.Sprintf("adv(%dms)%s", s.AdvMs, ns)
 	case vfC04Release:
 		return fmt.Sprintf("release(%d)%s", s.Idx, ns)
+	case vfC04Publish:
+		return fmt.Sprintf("publish(c%d delta=%v)%s", s.Ch, s.UseDelta, ns)
+	case vfC04PubPark:
+		return fmt.Sprintf("publishParkedInDeliveryTo(k%d c%d delta=%v then %s resub=%v)", s.Conn, s.Ch, s.UseDelta,
+			[]string{"unsubCmd", "Client.Unsubscribe", "Node.Unsubscribe", "transportClose", "Disconnect"}[s.Follow], s.Resub)
 	}
 	return "checkpoint"
 }
@@ -139,7 +151,7 @@ func (c vfC04Case) String() string {
 	}
 	chans := make([]string, c.NChans)
 	for i := 0; i < c.NChans; i++ {
-		chans[i] = fmt.Sprintf("c%d(pos=%v pres=%v)", i, c.ChPos[i], c.ChPres[i])
+		chans[i] = fmt.Sprintf("c%d(pos=%v pres=%v delta=%v)", i, c.ChPos[i], c.ChPres[i], c.ChDelta[i])
 	}
 	return fmt.Sprintf("conns=[%s] chans=[%s] steps=[%s]", strings.Join(conns, " "), strings.Join(chans, " "), strings.Join(st, " "))
 }
@@ -158,7 +170,8 @@ func vfC04Gen(rt *rapid.T) vfC04Case {
 		c.Init = append(c.Init, init)
 	}
 	for ch := 0; ch < c.NChans; ch++ {
-		c.ChPos = append(c.ChPos, rapid.Bool().Draw(rt, "pos"))
+		c.ChPos = append(c.ChPos, rapid.IntRange(0, 2).Draw(rt, "pos") > 0)
+		c.ChDelta = append(c.ChDelta, rapid.IntRange(0, 2).Draw(rt, "delta") > 0)
 		c.ChPres = append(c.ChPres, rapid.IntRange(0, 2).Draw(rt, "pres") > 0)
 	}
 	n := rapid.IntRange(4, 26).Draw(rt, "nsteps")
@@ -171,19 +184,25 @@ func vfC04Gen(rt *rapid.T) vfC04Case {
 		vfC04Advance, vfC04Advance, vfC04Advance,
 		vfC04Release, vfC04Release, vfC04Release, vfC04Release, vfC04Release,
 		vfC04Checkpoint, vfC04Checkpoint,
+		vfC04Publish, vfC04Publish, vfC04PubPark,
 	}
 	for len(c.Steps) < n {
 		// bias towards connection 0 / channel 0 so that operations overlap on the same pair
 		conn := rapid.SampledFrom([]int{0, 0, 0, 1, 2}).Draw(rt, "conn") % c.NConns
 		ch := rapid.SampledFrom([]int{0, 0, 0, 1, 2}).Draw(rt, "ch") % c.NChans
 		// 15% of the draws are phrases aimed at specific windows; they expand to ordinary steps
-		if ph := rapid.SampledFrom([]int{9, 9, 9, 9, 9, 9, 9, 9, 9, 9, 9, 9, 9, 9, 9, 9, 9, 9, 9, 9, 9, 9, 9, 9, 9, 9, 9, 9, 9, 9, 9, 9, 9, 9, 3, 3, 2, 2, 1, 0}).Draw(rt, "phrase"); ph < 4 {
+		if ph := rapid.SampledFrom([]int{9, 9, 9, 9, 9, 9, 9, 9, 9, 9, 9, 9, 9, 9, 9, 9, 9, 9, 9, 9, 9, 9, 9, 9, 9, 9, 9, 9, 9, 9, 9, 9, 4, 4, 3, 3, 2, 2, 1, 0}).Draw(rt, "phrase"); ph < 5 {
 			parkedSub := vfC04Step{Kind: vfC04SubCmd, Conn: conn, Ch: ch, Mode: rapid.SampledFrom([]int{1, 1, 3, 0}).Draw(rt, "pmode")}
 			if parkedSub.Mode == 0 {
 				parkedSub.GateH, parkedSub.GateP = true, true // parks after the hub registration when the channel allows it
 			}
 			adv := vfC04Step{Kind: vfC04Advance, AdvMs: rapid.SampledFrom([]int{5000, 5000, 6000, 2000}).Draw(rt, "padv")}
 			switch ph {
+			case 4: // unsubscribe / close lands inside the first real-time delivery to a fresh (delta) subscription
+				c.Steps = append(c.Steps, vfC04Step{Kind: vfC04UnsubCmd, Conn: conn, Ch: ch},
+					vfC04Step{Kind: vfC04SubCmd, Conn: conn, Ch: ch},
+					vfC04Step{Kind: vfC04PubPark, Conn: conn, Ch: ch, User: c.Users[conn], UseDelta: rapid.Bool().Draw(rt, "pdelta"),
+						Follow: rapid.SampledFrom([]int{0, 0, 1, 2, 3, 4}).Draw(rt, "pfollow"), Resub: rapid.IntRange(0, 2).Draw(rt, "presub2") == 0})
 			case 0: // close() itself runs into the wait gate of the parked subscribe, which resumes afterwards
 				c.Steps = append(c.Steps, parkedSub,
 					vfC04Step{Kind: rapid.SampledFrom([]int{vfC04Disconnect, vfC04TransportClose}).Draw(rt, "pclose"), Conn: conn, Quiet: true},
@@ -227,8 +246,15 @@ func vfC04Gen(rt *rapid.T) vfC04Case {
 			s.AdvMs = rapid.SampledFrom([]int{100, 1000, 2000, 5000, 5000, 6000}).Draw(rt, "adv")
 		case vfC04Release:
 			s.Idx = rapid.IntRange(0, 5).Draw(rt, "idx")
+		case vfC04Publish:
+			s.UseDelta = rapid.Bool().Draw(rt, "useDelta")
+		case vfC04PubPark:
+			s.UseDelta = rapid.Bool().Draw(rt, "useDelta")
+			s.Follow = rapid.SampledFrom([]int{0, 0, 1, 2, 3, 4}).Draw(rt, "follow")
+			s.Resub = rapid.IntRange(0, 2).Draw(rt, "resub") == 0
+			s.NoSettle = false
 		}
-		if s.Kind == vfC04NodeSub || s.Kind == vfC04NodeUnsub {
+		if s.Kind == vfC04NodeSub || s.Kind == vfC04NodeUnsub || s.Kind == vfC04PubPark {
 			s.User = c.Users[s.Conn]
 		}
 		c.Steps = append(c.Steps, s)
@@ -293,6 +319,7 @@ type vfC04Rt struct {
 	finalizing bool
 	overlaps   int
 	autoRel    int
+	pubBusy    int // schedule publications whose Publish call has not returned yet
 }
 
 func (a *vfC04Att) done() {
@@ -511,7 +538,11 @@ func vfC04Run(t *testing.T, cs vfC04Case, out *vfC04Out, isKnown func(string) bo
 		chName := func(ch int) string { return fmt.Sprintf("c%d", ch) }
 		userName := func(u int) string { return fmt.Sprintf("u%d", u) }
 		optsFor := func(ch int) SubscribeOptions {
-			return SubscribeOptions{EnablePositioning: cs.ChPos[ch], EmitPresence: cs.ChPres[ch]}
+			o := SubscribeOptions{EnablePositioning: cs.ChPos[ch], EmitPresence: cs.ChPres[ch]}
+			if cs.ChDelta[ch] {
+				o.AllowedDeltaTypes = []DeltaType{DeltaTypeFossil}
+			}
+			return o
 		}
 		chIndex := map[string]int{}
 		for ch := 0; ch < cs.NChans; ch++ {
@@ -795,9 +826,10 @@ func vfC04Run(t *testing.T, cs vfC04Case, out *vfC04Out, isKnown func(string) bo
 			}
 			r.mu.Lock()
 			defer r.mu.Unlock()
-			return len(r.parked) == 0
+			return len(r.parked) == 0 && r.pubBusy == 0
 		}
 		markerN := 0
+		pubN := 0
 		fullCheck := func(where string) string {
 			for c := 0; c < cs.NConns; c++ {
 				if m := checkState(c, where); m != "" {
@@ -826,13 +858,30 @@ func vfC04Run(t *testing.T, cs vfC04Case, out *vfC04Out, isKnown func(string) bo
 			}
 			// marker publications: one without offset (routed by the hub entry alone) and one with history (offset > 0,
 			// which additionally passes the client's subscribed-flag / position checks)
-			type mk struct {
-				ch   int
-				data string
+			// A delta subscriber gets the payload re-encoded (JSON string / fossil patch), so a marker is recognised as "one
+			// more publication push on that channel" rather than by its payload.
+			pubFrames := func(c, ch int) (int, string) {
+				n := 0
+				for _, f := range conns[c].Frames() {
+					if f.Err != nil {
+						return 0, fmt.Sprintf("%s: k%d wrote an undecodable frame: %v", where, c, f.Err)
+					}
+					if p := f.Reply.Push; p != nil && p.Pub != nil && p.Channel == chName(ch) {
+						n++
+					}
+				}
+				return n, ""
 			}
-			var marks []mk
 			for ch := 0; ch < cs.NChans; ch++ {
 				for k := 0; k < 2; k++ {
+					before := make([]int, cs.NConns)
+					for c := 0; c < cs.NConns; c++ {
+						n, m := pubFrames(c, ch)
+						if m != "" {
+							return m
+						}
+						before[c] = n
+					}
 					markerN++
 					data := fmt.Sprintf(`{"marker":%d}`, markerN)
 					var perr error
@@ -844,31 +893,22 @@ func vfC04Run(t *testing.T, cs vfC04Case, out *vfC04Out, isKnown func(string) bo
 					if perr != nil {
 						return "infra: marker publish failed: " + perr.Error()
 					}
-					marks = append(marks, mk{ch, data})
-				}
-			}
-			vfSettle()
-			time.Sleep(50 * time.Millisecond)
-			vfSettle()
-			for c := 0; c < cs.NConns; c++ {
-				frames := conns[c].Frames()
-				for _, m := range marks {
-					got := 0
-					for _, f := range frames {
-						if f.Err != nil {
-							return fmt.Sprintf("%s: k%d wrote an undecodable frame: %v", where, c, f.Err)
+					vfSettle()
+					time.Sleep(10 * time.Millisecond)
+					vfSettle()
+					for c := 0; c < cs.NConns; c++ {
+						n, m := pubFrames(c, ch)
+						if m != "" {
+							return m
 						}
-						if p := f.Reply.Push; p != nil && p.Pub != nil && p.Channel == chName(m.ch) && string(p.Pub.Data) == m.data {
-							got++
+						want := 0
+						if subAt[c][ch] {
+							want = 1
 						}
-					}
-					want := 0
-					if subAt[c][m.ch] {
-						want = 1
-					}
-					if got != want {
-						return fmt.Sprintf("%s: k%d (reports subscribed to %s: %v) received marker %s %d time(s), expected %d; frames: %s",
-							where, c, chName(m.ch), subAt[c][m.ch], m.data, got, want, vfTrunc(vfRenderFrames(frames), 1500))
+						if got := n - before[c]; got != want {
+							return fmt.Sprintf("%s: k%d (reports subscribed to %s: %v) received marker %s (history=%v) %d time(s), expected %d; frames: %s",
+								where, c, chName(ch), subAt[c][ch], data, k == 1, got, want, vfTrunc(vfRenderFrames(conns[c].Frames()), 1500))
+						}
 					}
 				}
 			}
@@ -888,8 +928,12 @@ func vfC04Run(t *testing.T, cs vfC04Case, out *vfC04Out, isKnown func(string) bo
 				noteSubWindow(c, s.Ch)
 				armSub(c, s.Ch, s)
 				conn := conns[c]
+				deltaReq := ""
+				if cs.ChDelta[s.Ch] {
+					deltaReq = string(DeltaTypeFossil)
+				}
 				r.start([]int{c}, s.Ch, true, s.Mode, func(a *vfC04Att) {
-					conn.Cmd(&protocol.Command{Id: conn.NextID(), Subscribe: &protocol.SubscribeRequest{Channel: chn, Data: []byte(fmt.Sprintf(`{"a":%d}`, a.idx))}})
+					conn.Cmd(&protocol.Command{Id: conn.NextID(), Subscribe: &protocol.SubscribeRequest{Channel: chn, Delta: deltaReq, Data: []byte(fmt.Sprintf(`{"a":%d}`, a.idx))}})
 				})
 			case vfC04UnsubCmd:
 				c := s.Conn
@@ -1025,6 +1069,110 @@ func vfC04Run(t *testing.T, cs vfC04Case, out *vfC04Out, isKnown func(string) bo
 						out.label("released_after_close_started")
 					}
 				}
+			case vfC04Publish, vfC04PubPark:
+				pubN++
+				data := []byte(fmt.Sprintf(`{"pub":%d}`, pubN))
+				opts := []PublishOption{WithHistory(100, 10*time.Minute)}
+				if s.UseDelta {
+					opts = append(opts, WithDelta(true))
+				}
+				publish := func() {
+					r.mu.Lock()
+					r.pubBusy++
+					r.mu.Unlock()
+					go func() {
+						_, _ = w.node.Publish(chn, data, opts...)
+						r.mu.Lock()
+						r.pubBusy--
+						r.mu.Unlock()
+					}()
+				}
+				c := s.Conn
+				park := s.Kind == vfC04PubPark
+				if park {
+					if !settled {
+						settle()
+					}
+					// Only a positioned subscription calls the transport between releasing and re-taking Client.mu (a
+					// non-positioned one calls it with Client.mu held), and nothing else of the world may be in flight:
+					// the parked delivery holds the broker's publish lock and the hub shard's read lock.
+					park = cs.ChPos[s.Ch] && allIdle() && !isFrozen(c) && !conns[c].Client.closing.Load() && conns[c].Client.IsSubscribed(chn)
+				}
+				if !park {
+					publish()
+					out.label("publication_in_flight")
+					break
+				}
+				gate := "dpf:" + conns[c].Name
+				w.Gates.Arm(gate, 1)
+				publish()
+				vfSettle()
+				if w.Gates.Waiting(gate) == 0 {
+					w.Gates.Disarm(gate)
+					break
+				}
+				out.label("win_delivery_parked_between_state_read_and_flag_update")
+				sh := w.node.hub.subShards[index(chn, numHubShards)]
+				sh.mu.RLock()
+				isDelta := sh.subs[chn][conns[c].Client.ID()].deltaType == DeltaTypeFossil
+				sh.mu.RUnlock()
+				if isDelta {
+					out.label("win_parked_delivery_is_to_delta_subscriber")
+				}
+				// From here to the release nothing may wait for quiescence or for the clock: the follow-up operation
+				// blocks (on a mutex) at the hub shard lock the parked broadcast holds.
+				spinUntil := func(cond func() bool) {
+					for i := 0; i < 5000 && !cond(); i++ {
+						runtime.Gosched()
+					}
+				}
+				entryGone := func() bool {
+					cl := conns[c].Client
+					cl.mu.RLock()
+					defer cl.mu.RUnlock()
+					_, ok := cl.channels[chn]
+					return !ok
+				}
+				conn := conns[c]
+				u := userName(s.User)
+				switch s.Follow {
+				case 0:
+					r.start([]int{c}, s.Ch, false, 0, func(a *vfC04Att) {
+						conn.Cmd(&protocol.Command{Id: conn.NextID(), Unsubscribe: &protocol.UnsubscribeRequest{Channel: chn}})
+					})
+				case 1:
+					r.start([]int{c}, s.Ch, false, 0, func(a *vfC04Att) { conn.Client.Unsubscribe(chn) })
+				case 2:
+					r.start(usersConns(s.User), s.Ch, false, 0, func(a *vfC04Att) { _ = w.node.Unsubscribe(u, chn) })
+				default:
+					closeIssued[c] = true
+					follow := s.Follow
+					r.start([]int{c}, -1, false, 0, func(a *vfC04Att) {
+						if follow == 3 {
+							conn.TransportClose()
+						} else {
+							conn.Client.Disconnect()
+						}
+					})
+				}
+				spinUntil(entryGone)
+				if entryGone() {
+					out.label("win_unsubscribed_inside_parked_delivery")
+				}
+				if s.Resub && s.Follow < 3 {
+					deltaReq := ""
+					if cs.ChDelta[s.Ch] {
+						deltaReq = string(DeltaTypeFossil)
+					}
+					r.start([]int{c}, s.Ch, true, 0, func(a *vfC04Att) {
+						conn.Cmd(&protocol.Command{Id: conn.NextID(), Subscribe: &protocol.SubscribeRequest{Channel: chn, Delta: deltaReq, Data: []byte(fmt.Sprintf(`{"a":%d}`, a.idx))}})
+					})
+					for i := 0; i < 300; i++ {
+						runtime.Gosched()
+					}
+					out.label("win_resubscribed_inside_parked_delivery")
+				}
+				w.Gates.Release(gate)
 			case vfC04Checkpoint:
 				settle()
 				if allIdle() {
